@@ -174,6 +174,7 @@ func checkC12(c *Ctx) {
 	// ---- R2 recursion guard
 	checkRecursionGuard(c, "C12.R2.recursion-guard", pk)
 	checkVisitedOrder(c, "C12.R2.linear-visits", pk, true)
+	checkLoopAdvance(c, "C12.R2.loop-advance", pk)
 
 	// ---- R3 relational guard presence
 	r := c.diffRel()
@@ -791,5 +792,91 @@ func checkNilOnlyForNilArg(c *Ctx, rule string, pk *packages.Package, names []st
 		})
 		c.Check(ok, rule, "diff."+name+" › answers nil only for a nil argument", c.posOf(pk, fd.Pos()), "every `return nil` is under `"+param.Name()+" == nil`",
 			name+" can answer nil for a non-nil argument: its callers dereference the result after testing the argument only")
+	}
+}
+
+// checkLoopAdvance: a `for cond { … }` loop without post statement terminates because its body
+// changes what cond reads. A `continue` placed before the statement that does so starts the next
+// iteration on the same values: the loop never ends.
+func checkLoopAdvance(c *Ctx, rule string, pk *packages.Package) {
+	c.Rule(rule, "in every `for cond {}` loop of the diff package (no post statement), no `continue` precedes the last statement that assigns the variables of cond", 1)
+	info := pk.TypesInfo
+	n := 0
+	for _, fd := range load.AllFuncs(pk) {
+		if fd.Body == nil {
+			continue
+		}
+		ord := 0
+		ast.Inspect(fd.Body, func(nd ast.Node) bool {
+			fs, ok := nd.(*ast.ForStmt)
+			if !ok || fs.Cond == nil || fs.Post != nil {
+				return true
+			}
+			vars := map[types.Object]bool{}
+			ast.Inspect(fs.Cond, func(m ast.Node) bool {
+				if id, ok := m.(*ast.Ident); ok {
+					if v, ok := info.Uses[id].(*types.Var); ok && !v.IsField() {
+						vars[v] = true
+					}
+				}
+				return true
+			})
+			if len(vars) == 0 {
+				return true
+			}
+			// the last top-level statement of the body that assigns one of them
+			var advance token.Pos
+			for _, st := range fs.Body.List {
+				assigns := false
+				switch x := st.(type) {
+				case *ast.AssignStmt:
+					for _, l := range x.Lhs {
+						if id, ok := ast.Unparen(l).(*ast.Ident); ok && vars[info.ObjectOf(id)] {
+							assigns = true
+						}
+					}
+				case *ast.IncDecStmt:
+					if id, ok := ast.Unparen(x.X).(*ast.Ident); ok && vars[info.ObjectOf(id)] {
+						assigns = true
+					}
+				}
+				if assigns {
+					advance = st.Pos()
+				}
+			}
+			if !advance.IsValid() {
+				return true // advanced elsewhere (inside branches, by calls): not this rule's shape
+			}
+			ord++
+			n++
+			var early []string
+			var walk func(m ast.Node)
+			walk = func(m ast.Node) {
+				ast.Inspect(m, func(k ast.Node) bool {
+					switch y := k.(type) {
+					case *ast.FuncLit, *ast.ForStmt, *ast.RangeStmt:
+						if k != m {
+							return false // a continue in there belongs to that loop
+						}
+					case *ast.BranchStmt:
+						if y.Tok == token.CONTINUE && y.Label == nil && y.Pos() < advance {
+							early = append(early, c.posOf(pk, y.Pos()))
+						}
+					}
+					return true
+				})
+			}
+			for _, st := range fs.Body.List {
+				if st.Pos() < advance {
+					walk(st)
+				}
+			}
+			c.Check(len(early) == 0, rule, fmt.Sprintf("diff.%s › for %s #%d advances on every iteration", load.FuncName(fd), goan.ExprString(fs.Cond), ord), c.posOf(pk, fs.Pos()), "no continue before the advancing statement",
+				fmt.Sprintf("the loop `for %s` is continued at %v before the statement that moves it on: the next iteration sees the same values and the comparison never returns", goan.ExprString(fs.Cond), early))
+			return true
+		})
+	}
+	if n == 0 {
+		c.Ok(rule, "diff › no conditional loop without post statement", "", "none found")
 	}
 }
